@@ -11,7 +11,11 @@ environment variable ``VERIF_FAKE_CTL``:
     log        path of a JSON-lines file the tool appends its observations to
     gate       path or null: the tool waits until this file exists (at most
                ``gate_max`` seconds, default 240) before it does anything else
-               ("hang" = the gate is never opened)
+               ("hang" = the gate is never opened).  A tool that gives up waiting
+               logs ``{"phase": "gate_timeout"}``: the check then discards the case
+    early_output  (MSA personalities) read the input and write all output *before*
+               waiting at the gate (a tool that has written everything and then hangs)
+    version    text printed for ``-version`` / ``--version`` instead of the built-in one
     mode       "ok"       write a valid alignment of the input file
                "exit"     like ok (if write_before_exit) but exit with exit_code
                "garbage"  write unparsable output, kind = ctl["garbage"]
@@ -19,6 +23,9 @@ environment variable ``VERIF_FAKE_CTL``:
     patterns   per *input index* a string of 'x' (next residue) and '-' (gap)
     order      the order (input indices) in which the rows are written
     stdout / stderr   text written for fake_generic (stderr: all personalities)
+
+The ``start`` record holds argv, cwd and - if file descriptor 0 is a regular file - the
+text read from standard input (key ``stdin``, else null).
     exit_code  exit status for mode "exit" and for fake_generic
 
 Exit codes 90..99 mean "the check drove the fake tool wrongly" (harness error).
@@ -121,14 +128,14 @@ def build_rows(ctl, entries):
     return rows
 
 
-def garble(kind, rows):
+def garble(kind, rows, ragged_header):
     if kind == "text":
         return "this is not\nan alignment at all \x01\x02\n\n;;\n"
     if kind == "drop_row":
         rows = rows[:-1]
     elif kind == "ragged":
         # the row of input sequence 1 is one column shorter than the others
-        rows = [[h, s[:-1]] if h == "1" else [h, s] for h, s in rows]
+        rows = [[h, s[:-1]] if h == ragged_header else [h, s] for h, s in rows]
     elif kind == "bad_header":
         rows = [["seq_" + r[0] + "_x", r[1]] for r in rows]
     else:
@@ -137,30 +144,52 @@ def garble(kind, rows):
     return "".join(f">{h}\n{s}\n" for h, s in rows)
 
 
-def main(personality):
-    argv = sys.argv[1:]
-    if "--version" in argv or "-version" in argv:
-        sys.stdout.write(VERSIONS[personality])
-        return 0
-    ctl_path = os.environ.get("VERIF_FAKE_CTL")
-    if not ctl_path:
-        sys.stderr.write("VERIF_FAKE_CTL is not set\n")
-        return 98
-    with open(ctl_path) as f:
-        ctl = json.load(f)
-    opts, flags, positional = parse_args(personality, argv)
-    log(ctl, {"phase": "start", "argv": argv, "cwd": os.getcwd(), "tool": personality})
+def read_regular_stdin():
+    """Text on standard input if it is a regular file (never wait for a terminal or a pipe)."""
+    import stat
 
+    try:
+        if stat.S_ISREG(os.fstat(0).st_mode):
+            return sys.stdin.read()
+    except (OSError, ValueError):
+        pass
+    return None
+
+
+def wait_gate(ctl):
     gate = ctl.get("gate")
     if gate:
         t_end = time.monotonic() + float(ctl.get("gate_max", 240.0))
-        while not os.path.exists(gate) and time.monotonic() < t_end:
+        while not os.path.exists(gate):
+            if time.monotonic() >= t_end:
+                # the check must not draw a conclusion from a "hanging" tool that walked on
+                log(ctl, {"phase": "gate_timeout"})
+                break
             time.sleep(0.01)
 
+
+def main(personality):
+    argv = sys.argv[1:]
+    ctl = None
+    ctl_path = os.environ.get("VERIF_FAKE_CTL")
+    if ctl_path and os.path.exists(ctl_path):
+        with open(ctl_path) as f:
+            ctl = json.load(f)
+    if "--version" in argv or "-version" in argv:
+        version = (ctl or {}).get("version")
+        sys.stdout.write(VERSIONS[personality] if version is None else version)
+        return 0
+    if ctl is None:
+        sys.stderr.write("VERIF_FAKE_CTL is not set\n")
+        return 98
+    opts, flags, positional = parse_args(personality, argv)
+    log(ctl, {"phase": "start", "argv": argv, "cwd": os.getcwd(), "tool": personality, "stdin": read_regular_stdin()})
+
     mode = ctl["mode"]
-    sys.stderr.write(ctl.get("stderr", ""))
 
     if personality == "generic":
+        wait_gate(ctl)
+        sys.stderr.write(ctl.get("stderr", ""))
         sys.stdout.write(ctl.get("stdout", ""))
         sys.stdout.flush()
         log(ctl, {"phase": "end"})
@@ -185,27 +214,28 @@ def main(personality):
         sys.stderr.write("missing input/output option\n")
         return 95
 
-    entries = read_fasta(in_path)
-    matrix_text = None
-    if matrix_path is not None:
-        with open(matrix_path) as f:
-            matrix_text = f.read()
-    log(ctl, {"phase": "input", "entries": entries, "matrix": matrix_text})
+    def work():
+        entries = read_fasta(in_path)
+        matrix_text = None
+        if matrix_path is not None:
+            with open(matrix_path) as f:
+                matrix_text = f.read()
+        log(ctl, {"phase": "input", "entries": entries, "matrix": matrix_text})
 
-    if mode == "missing":
-        if ctl.get("unlink_out") and out_path is not None:
-            try:
-                os.remove(out_path)
-            except FileNotFoundError:
-                pass
-        log(ctl, {"phase": "end"})
-        return 0
+        if mode == "missing":
+            if ctl.get("unlink_out") and out_path is not None:
+                try:
+                    os.remove(out_path)
+                except FileNotFoundError:
+                    pass
+            return
 
-    write_output = mode in ("ok", "garbage") or (mode == "exit" and ctl.get("write_before_exit"))
-    if write_output:
+        write_output = mode in ("ok", "garbage") or (mode == "exit" and ctl.get("write_before_exit"))
+        if not write_output:
+            return
         rows = build_rows(ctl, entries)
         if mode == "garbage":
-            text = garble(ctl["garbage"], rows)
+            text = garble(ctl["garbage"], rows, entries[1][0] if len(entries) > 1 else None)
         else:
             text = "".join(f">{h}\n{s}\n" for h, s in rows)
         if out_path is None:
@@ -214,9 +244,9 @@ def main(personality):
         else:
             with open(out_path, "w") as f:
                 f.write(text)
-        # ---- side products the wrappers read back
+        # ---- side products the wrappers read back: the leaves carry the names the tool read
         n = len(entries)
-        labels = [str(i) for i in ctl["order"]]
+        labels = [entries[i][0] for i in ctl["order"]]
         if personality == "clustalo":
             if "--guidetree-out" in opts:
                 with open(opts["--guidetree-out"], "w") as f:
@@ -226,18 +256,26 @@ def main(personality):
                     f.write(f"{n}\n")
                     for i in range(n):
                         vals = " ".join(f"{abs(i - j) * 0.25:.6f}" for j in range(n))
-                        f.write(f"{i}  {vals}\n")
+                        f.write(f"{entries[i][0]}  {vals}\n")
         elif personality == "mafft":
             if "--treeout" in flags:
                 with open(in_path + ".tree", "w") as f:
                     # MAFFT labels its leaves <n>_<name>
-                    f.write(caterpillar([f"{int(l) + 1}_{l}" for l in labels]) + "\n")
+                    f.write(caterpillar([f"{i + 1}_{entries[i][0]}" for i in ctl["order"]]) + "\n")
         elif personality == "muscle3":
             for key in ("-tree1", "-tree2"):
                 if key in opts:
                     with open(opts[key], "w") as f:
                         f.write(caterpillar(labels) + "\n")
 
+    early = bool(ctl.get("early_output"))
+    if early:
+        work()
+    wait_gate(ctl)
+    sys.stderr.write(ctl.get("stderr", ""))
+    sys.stderr.flush()
+    if not early:
+        work()
     log(ctl, {"phase": "end"})
     if mode == "exit":
         return int(ctl["exit_code"])
